@@ -12,6 +12,8 @@ package props
 import (
 	"bytes"
 	"compress/gzip"
+	"crypto/aes"
+	"crypto/cipher"
 	"crypto/sha256"
 	"encoding/binary"
 	"encoding/hex"
@@ -63,11 +65,16 @@ type c07Opts struct {
 	Batch      int    `json:"batch"`
 	FlushEvery int    `json:"flush_every_batches"`
 	OpenMode   string `json:"open_mode"`
+	// "" | footer (encrypted footer) | plain-footer (signed plaintext footer) | column-keys (+ AAD prefix);
+	// AES_GCM_CTR_V1 is refused by the writer ("not yet implemented")
+	Encrypt string `json:"encryption,omitempty"`
 	// source file of the WriteRowGroup-from-file paths
 	SrcCodec string `json:"src_compression,omitempty"`
 	SrcPageV int    `json:"src_data_page_version,omitempty"`
 	SrcBloom string `json:"src_bloom,omitempty"` // same | none | otherbits
 	SrcMax   int64  `json:"src_max_rows,omitempty"`
+	// encryption of the source file (same modes and keys as Encrypt)
+	SrcEncrypt string `json:"src_encryption,omitempty"`
 }
 
 type c07Case struct {
@@ -78,6 +85,10 @@ type c07Case struct {
 	Cols  []c07Col `json:"cols"`
 	Opts  c07Opts  `json:"opts"`
 	rows  [][][]c07Val
+	// set by c07RunCase after the file was written
+	file      []byte
+	misplaced map[[2]int]string // (row group, leaf) -> what is wrong with the chunk's filter region
+	groups    []c07Group        // "buffer" path: output row group -> WriteRowGroup call (see bufferGroup)
 }
 
 func (c c07Col) phys() string {
@@ -371,6 +382,9 @@ func c07GenCase(ctx *core.Ctx, index int) *c07Case {
 	o.BloomComp = []string{"", "", "", "gzip", "uncompressed"}[r.Intn(5)]
 	o.Deferred = r.Intn(4) == 0
 	o.OpenMode = []string{"default", "default", "skip", "prefetch"}[r.Intn(4)]
+	// round 3: choices added later draw from their own stream, so that the earlier cases stay as they were
+	r3 := ctx.Rand(fmt.Sprintf("files/%d/round3", index))
+	o.Encrypt = []string{"", "", "", "", "", "", "footer", "plain-footer", "column-keys", "column-keys"}[r3.Intn(10)]
 	cs.N = []int{0, 1, 2, 7, 8, 9, 63, 64, 65, 100, 129, 300, 1000, 2500}[r.Intn(14)]
 	if o.MaxRows > 0 && o.MaxRows <= 2 {
 		cs.N = min(cs.N, 65)
@@ -404,6 +418,13 @@ func c07GenCase(ctx *core.Ctx, index int) *c07Case {
 		} else if o.MaxRows > 0 && r.Intn(2) == 0 {
 			o.MaxRows = 0 // the verbatim copy needs source row groups no larger than the destination limit
 		}
+	}
+	if (strings.HasPrefix(cs.Path, "file-") || cs.Path == "copyrows") && r3.Intn(4) == 0 {
+		o.SrcEncrypt = []string{"footer", "plain-footer", "column-keys"}[r3.Intn(3)]
+	}
+	// pre-sized filter + dictionary fallback needs WriteRowGroup and a small dictionary limit together
+	if (cs.Path == "buffer" || cs.Path == "file-reencode" || cs.Path == "file-merge") && o.DictMax == 0 && r3.Intn(3) == 0 {
+		o.DictMax = []int64{16, 64, 256}[r3.Intn(3)]
 	}
 	cs.rows = c07GenRows(r, cs.Cols, cs.N)
 	if cs.Path == "any" {
@@ -490,8 +511,73 @@ func (cs *c07Case) options(src bool) []parquet.WriterOption {
 		if o.Deferred {
 			opts = append(opts, parquet.DeferBloomFiltersWithBuffers(parquet.NewBufferPool()))
 		}
+		if ec := cs.encryption(); ec != nil {
+			opts = append(opts, parquet.WithEncryption(ec))
+		}
+	} else if ec := cs.encryptionMode(o.SrcEncrypt); ec != nil {
+		opts = append(opts, parquet.WithEncryption(ec))
 	}
 	return opts
+}
+
+// keys of the encrypted cases: one footer key, one key per column for "column-keys"
+var c07FooterKey = bytes.Repeat([]byte{0x5A}, 16)
+
+func c07ColumnKey(name string) []byte {
+	h := sha256.Sum256([]byte("c07 column key " + name))
+	return h[:16]
+}
+
+type c07Keys struct{}
+
+func (c07Keys) FooterKey([]byte) ([]byte, error) { return c07FooterKey, nil }
+func (c07Keys) ColumnKey(path []string, _ []byte) ([]byte, error) {
+	return c07ColumnKey(strings.Join(path, ".")), nil
+}
+
+// openModule decrypts one module (nonce ‖ ciphertext ‖ tag) of column ci as the format prescribes;
+// independent of the library's decryption code.
+func (cs *c07Case) openModule(ci, rgi, leaf int, moduleType byte, body []byte) ([]byte, error) {
+	ec := cs.encryption()
+	key := ec.FooterKey
+	if k, ok := ec.ColumnKeys[cs.Cols[ci].Name]; ok {
+		key = k
+	}
+	block, err := aes.NewCipher(key)
+	if err != nil {
+		return nil, err
+	}
+	gcm, err := cipher.NewGCM(block)
+	if err != nil {
+		return nil, err
+	}
+	aad := append([]byte{}, ec.AadPrefix...)
+	aad = append(aad, ec.FileIdentifier...)
+	aad = append(aad, moduleType, byte(rgi), byte(rgi>>8), byte(leaf), byte(leaf>>8))
+	return gcm.Open(nil, body[:12], body[12:], aad)
+}
+
+func (cs *c07Case) encryption() *parquet.EncryptionConfig { return cs.encryptionMode(cs.Opts.Encrypt) }
+
+func (cs *c07Case) encryptionMode(mode string) *parquet.EncryptionConfig {
+	if mode == "" {
+		return nil
+	}
+	ec := &parquet.EncryptionConfig{
+		FooterKey:       c07FooterKey,
+		EncryptedFooter: mode != "plain-footer",
+		FileIdentifier:  []byte{1, 2, 3, 4, 5, 6, 7, 8},
+	}
+	if mode == "column-keys" {
+		ec.ColumnKeys = map[string][]byte{}
+		for i, c := range cs.Cols {
+			if i%2 == 0 { // the others fall back to the footer key
+				ec.ColumnKeys[c.Name] = c07ColumnKey(c.Name)
+			}
+		}
+		ec.AadPrefix = []byte("c07")
+	}
+	return ec
 }
 
 // leaf column index of every case column
@@ -659,7 +745,11 @@ func (cs *c07Case) write() (data []byte, err error) {
 		if err := sw.Close(); err != nil {
 			return nil, fmt.Errorf("source: %w", err)
 		}
-		sf, err := parquet.OpenFile(bytes.NewReader(src.Bytes()), int64(src.Len()))
+		var sopts []parquet.FileOption
+		if o.SrcEncrypt != "" {
+			sopts = append(sopts, parquet.WithDecryption(c07Keys{}))
+		}
+		sf, err := parquet.OpenFile(bytes.NewReader(src.Bytes()), int64(src.Len()), sopts...)
 		if err != nil {
 			return nil, fmt.Errorf("source: %w", err)
 		}
@@ -796,6 +886,13 @@ func c07RunCase(ctx *core.Ctx, b *c07Batch, cs *c07Case) {
 	case "prefetch":
 		fopts = append(fopts, parquet.PrefetchBloomFilters(true))
 	}
+	if cs.Opts.Encrypt != "" {
+		fopts = append(fopts, parquet.WithDecryption(c07Keys{}))
+		ctx.Hist("files.encryption", cs.Opts.Encrypt)
+	}
+	if cs.Opts.SrcEncrypt != "" {
+		ctx.Hist("files.source-encryption", cs.Opts.SrcEncrypt+" -> "+cs.Opts.Encrypt)
+	}
 	f, err := parquet.OpenFile(bytes.NewReader(data), int64(len(data)), fopts...)
 	if err != nil {
 		ctx.Fail("L1", "written-file-does-not-open", "OpenFile fails on a file the writer produced: "+err.Error(), cs.describe(ctx.Seed))
@@ -818,6 +915,8 @@ func c07RunCase(ctx *core.Ctx, b *c07Batch, cs *c07Case) {
 	if cs.Index < 4 {
 		ctx.Sample(cs)
 	}
+	cs.file = data
+	c07PlacementL2(ctx, b, cs, f)
 	off := 0
 	for rgi, rg := range f.RowGroups() {
 		n := int(rg.NumRows())
@@ -879,7 +978,14 @@ func c07CheckChunk(ctx *core.Ctx, b *c07Batch, cs *c07Case, f *parquet.File, rgi
 		}
 		if situation == "" {
 			situation = "false-negative-" + col.phys() + "-" + cs.Path
-			if col.phys() == "boolean" {
+			if why := cs.misplaced[[2]int{rgi, leaf}]; why != "" {
+				// the footer does not name a region of its own for this chunk's filter
+				situation = "filter-region-" + why
+			} else if cs.Opts.Encrypt != "" && cs.Opts.BloomComp == "gzip" && size%32 != 0 {
+				// the reader decompresses the filter of an encrypted column eagerly: its Size() is the bitset's,
+				// a whole number of 32-byte blocks; anything else is the length of the gzip stream
+				situation = "encrypted-gzip-filter-probed-with-compressed-size"
+			} else if col.phys() == "boolean" {
 				situation = "bool-bloom-write-hashes-packed-bytes"
 			} else if col.Enc == "dict" || cs.Typed {
 				if c07DictFallback(f, rgi, leaf, cc) {
@@ -896,6 +1002,7 @@ func c07CheckChunk(ctx *core.Ctx, b *c07Batch, cs *c07Case, f *parquet.File, rgi
 		}
 		break
 	}
+	c07SectionL2(ctx, b, cs, f, rgi, ci, leaf, where)
 	// ---- L2: stored filter bytes vs the model filter of the same values and size
 	if len(vals) == 0 || size == 0 {
 		return
@@ -905,7 +1012,10 @@ func c07CheckChunk(ctx *core.Ctx, b *c07Batch, cs *c07Case, f *parquet.File, rgi
 		ctx.Fail("L2", "filter-readat-error", "BloomFilter.ReadAt: "+err.Error(), where())
 		return
 	}
-	if cs.Opts.BloomComp == "gzip" {
+	if cs.Opts.BloomComp == "gzip" && cs.Opts.Encrypt != "" {
+		// newBloomFilterFromBytes (encrypted columns) decompresses eagerly: Size/ReadAt are the bitset's
+		ctx.Hist("files.filter-compression", "gzip-encrypted-read-back-decompressed")
+	} else if cs.Opts.BloomComp == "gzip" {
 		if un, err := c07Gunzip(raw); err == nil {
 			raw = un
 			ctx.Hist("files.filter-compression", "gzip")
@@ -957,6 +1067,222 @@ func c07CheckChunk(ctx *core.Ctx, b *c07Batch, cs *c07Case, f *parquet.File, rgi
 		}
 		d["request"], d["go"], d["lean"] = req, got, resp
 		ctx.Fail("L2", key, "filter bytes in the file differ from the model's filter of the same values and size", d)
+	})
+}
+
+// c07PlacementL2: where the filter sections lie. Independent part (no model): the regions
+// [BloomFilterOffset, +BloomFilterLength) of all chunks are inside the file and pairwise disjoint
+// (chunks whose region is shared are remembered in cs.misplaced: their false negatives get the key of
+// that situation). Model part (Lean `bloom.place`, MIRROR of the filter loop of writeRowGroup and of
+// writeDeferredBloomFilters on offsets): from the page bytes of every row group (footer: first page
+// offset, total_compressed_size) and the LENGTH of every filter section alone, the mirror predicts
+// every BloomFilterOffset.
+func c07PlacementL2(ctx *core.Ctx, b *c07Batch, cs *c07Case, f *parquet.File) {
+	md := f.Metadata()
+	cs.misplaced = map[[2]int]string{}
+	type region struct {
+		rg, col  int
+		off, len int64
+	}
+	var regions []region
+	var evs []string
+	var want []string
+	cur := int64(4)
+	evs = append(evs, "d4")
+	bad := ""
+	for k := range md.RowGroups {
+		pagesEnd := int64(0)
+		for j := range md.RowGroups[k].Columns {
+			m := &md.RowGroups[k].Columns[j].MetaData
+			first := m.DataPageOffset
+			if m.DictionaryPageOffset > 0 && m.DictionaryPageOffset < first {
+				first = m.DictionaryPageOffset
+			}
+			if m.TotalCompressedSize > 0 && first+m.TotalCompressedSize > pagesEnd {
+				pagesEnd = first + m.TotalCompressedSize
+			}
+		}
+		if pagesEnd > 0 {
+			if pagesEnd < cur {
+				bad = fmt.Sprintf("the pages of row group %d end at %d, before the end (%d) of what precedes them", k, pagesEnd, cur)
+				break
+			}
+			evs = append(evs, fmt.Sprintf("d%d", pagesEnd-cur))
+			cur = pagesEnd
+		}
+		for j := range md.RowGroups[k].Columns {
+			m := &md.RowGroups[k].Columns[j].MetaData
+			if m.BloomFilterOffset == 0 && m.BloomFilterLength == 0 {
+				continue
+			}
+			regions = append(regions, region{k, j, m.BloomFilterOffset, int64(m.BloomFilterLength)})
+			d := 0
+			if cs.Opts.Deferred {
+				d = 1
+			} else {
+				cur += int64(m.BloomFilterLength)
+			}
+			evs = append(evs, fmt.Sprintf("f%d.%d.%d.%d", k, j, m.BloomFilterLength, d))
+			want = append(want, fmt.Sprintf("%d.%d.%d.%d", k, j, m.BloomFilterOffset, m.BloomFilterLength))
+		}
+	}
+	evs = append(evs, "x")
+	// independent: inside the file, pairwise disjoint
+	for i, r := range regions {
+		if r.off < 4 || r.len <= 0 || r.off+r.len > int64(len(cs.file)) {
+			cs.misplaced[[2]int{r.rg, r.col}] = "outside-the-file"
+			continue
+		}
+		for i2, r2 := range regions {
+			if i2 != i && r.off < r2.off+r2.len && r2.off < r.off+r.len {
+				cs.misplaced[[2]int{r.rg, r.col}] = "shared-with-another-chunk"
+			}
+		}
+	}
+	ctx.Hist("files.placement", fmt.Sprintf("deferred=%v encrypted=%v filters=%s", cs.Opts.Deferred, cs.Opts.Encrypt != "", c07Bucket(len(regions))))
+	detail := func() map[string]any {
+		d := cs.describe(ctx.Seed)
+		d["filter_regions"] = want
+		return d
+	}
+	if len(cs.misplaced) > 0 {
+		keys := map[string]bool{}
+		for _, why := range cs.misplaced {
+			keys[why] = true
+		}
+		for why := range keys {
+			key := "filter-regions-" + why
+			if cs.Opts.Deferred {
+				key = "deferred-" + key
+			}
+			ctx.Fail("L2", key, "the bloom filter regions the footer records (BloomFilterOffset/Length) are not one region of the file per chunk", detail())
+		}
+	}
+	if bad != "" {
+		ctx.Fail("L2", "placement-pages-overlap", bad, detail())
+		return
+	}
+	if len(regions) == 0 {
+		return
+	}
+	req := "bloom.place " + strings.Join(evs, ",")
+	b.add(req, func(resp string) {
+		got := "ok " + strings.Join(want, ",") + " "
+		if strings.HasPrefix(resp, got) {
+			return
+		}
+		d := detail()
+		d["request"], d["go"], d["lean"] = req, got, resp
+		key := "filter-placement-vs-mirror"
+		if cs.Opts.Deferred {
+			key = "deferred-filter-placement-vs-mirror"
+		}
+		ctx.Fail("L2", key, "BloomFilterOffset of the chunks differs from the placement the mirror of writeRowGroup/writeDeferredBloomFilters computes from the section lengths", d)
+	})
+}
+
+// c07SectionL2: the framing of one filter section at the recorded offset. Unencrypted: the thrift
+// header bytes are those of the Lean mirror (`headerBytes`, read back by the spec reader in
+// `header_roundtrip`) for the NumBytes found and the configured compression, and header + NumBytes =
+// BloomFilterLength. Encrypted: two module envelopes whose lengths add up to BloomFilterLength
+// (`encSectionLength`).
+func c07SectionL2(ctx *core.Ctx, b *c07Batch, cs *c07Case, f *parquet.File, rgi, ci, leaf int, where func() map[string]any) {
+	md := f.Metadata()
+	if rgi >= len(md.RowGroups) || leaf >= len(md.RowGroups[rgi].Columns) {
+		return
+	}
+	m := &md.RowGroups[rgi].Columns[leaf].MetaData
+	off, length := m.BloomFilterOffset, int64(m.BloomFilterLength)
+	if off <= 0 || length <= 0 || off+length > int64(len(cs.file)) {
+		return // reported by c07PlacementL2
+	}
+	sect := cs.file[off : off+length]
+	gz := 0
+	if cs.Opts.BloomComp == "gzip" {
+		gz = 1
+	}
+	fail := func(key, what string, extra map[string]any) {
+		d := where()
+		d["bloom_filter_offset"], d["bloom_filter_length"] = off, length
+		for k, v := range extra {
+			d[k] = v
+		}
+		ctx.Fail("L2", key, what, d)
+	}
+	if cs.Opts.Encrypt != "" {
+		if len(sect) < 8 {
+			fail("encrypted-filter-section-framing", "section shorter than two length prefixes", nil)
+			return
+		}
+		n1 := int64(binary.LittleEndian.Uint32(sect))
+		if 4+n1+4 > length {
+			fail("encrypted-filter-section-framing", "first module longer than the section", map[string]any{"module1": n1})
+			return
+		}
+		n2 := int64(binary.LittleEndian.Uint32(sect[4+n1:]))
+		nb := n2 - 28
+		ctx.Hist("files.section", "encrypted")
+		// the harness opens both modules itself (AES-GCM, AAD = prefix ‖ file id ‖ module type ‖ row group ‖ column)
+		var hdrPlain []byte
+		if 4+n1+4+n2 <= length && n1 >= 28 && n2 >= 28 {
+			var err error
+			if hdrPlain, err = cs.openModule(ci, rgi, leaf, 6, sect[4:4+n1]); err != nil {
+				fail("encrypted-filter-module-does-not-open", "header module: "+err.Error(), nil)
+				return
+			}
+			bits, err := cs.openModule(ci, rgi, leaf, 7, sect[4+n1+4:4+n1+4+n2])
+			if err != nil {
+				fail("encrypted-filter-module-does-not-open", "bitset module: "+err.Error(), nil)
+				return
+			}
+			if gz == 1 {
+				if bits, err = c07Gunzip(bits); err != nil {
+					fail("encrypted-filter-bitset-vs-reader", "bitset module is not a gzip stream: "+err.Error(), nil)
+					return
+				}
+			}
+			// what the library's reader hands out (Size/ReadAt) must be the (decompressed) bitset
+			if bf := f.RowGroups()[rgi].ColumnChunks()[leaf].BloomFilter(); bf != nil {
+				got := make([]byte, bf.Size())
+				if _, err := bf.ReadAt(got, 0); (err != nil && err != io.EOF) || !bytes.Equal(got, bits) {
+					fail("encrypted-filter-bitset-vs-reader", fmt.Sprintf("the reader's filter (%d bytes) is not the decrypted, decompressed bitset (%d bytes)", len(got), len(bits)), nil)
+				}
+			}
+		}
+		req := fmt.Sprintf("bloom.header %d %d", nb, gz)
+		b.add(req, func(resp string) {
+			fs := strings.Fields(resp)
+			if len(fs) == 3 && fs[0] == "ok" && fs[2] == fmt.Sprint(length) && int64(len(fs[1])/2)+28 == n1 && core.Hex(hdrPlain) == fs[1] {
+				return
+			}
+			fail("encrypted-filter-section-framing", "header module (decrypted) + bitset module are not those of the mirror of writeBloomFilter (encSection)",
+				map[string]any{"request": req, "lean": resp, "module1": n1, "module2": n2, "header_plain": core.Hex(hdrPlain)})
+		})
+		return
+	}
+	// NumBytes: field 1, i32, zigzag varint
+	if sect[0] != 0x15 {
+		fail("filter-header-vs-mirror", fmt.Sprintf("section starts with %#x, not with field 1 (i32)", sect[0]), nil)
+		return
+	}
+	u, n := binary.Uvarint(sect[1:])
+	if n <= 0 || u&1 != 0 {
+		fail("filter-header-vs-mirror", "NumBytes unreadable or negative", nil)
+		return
+	}
+	nb := int64(u >> 1)
+	ctx.Hist("files.section", "plain")
+	req := fmt.Sprintf("bloom.header %d %d", nb, gz)
+	b.add(req, func(resp string) {
+		fs := strings.Fields(resp)
+		if len(fs) == 3 && fs[0] == "ok" {
+			hdr := fs[1]
+			if int64(len(hdr)/2) <= length && core.Hex(sect[:len(hdr)/2]) == hdr && int64(len(hdr)/2)+nb == length {
+				return
+			}
+		}
+		fail("filter-header-vs-mirror", "the section is not header(NumBytes, compression) ++ NumBytes bytes as in the mirror of writeBloomFilter",
+			map[string]any{"request": req, "lean": resp, "section_head": core.Hex(sect[:min(len(sect), 24)])})
 	})
 }
 
@@ -1049,11 +1375,48 @@ func c07StrategyL2(ctx *core.Ctx, b *c07Batch, cs *c07Case, f *parquet.File, rgi
 	switch cs.Path {
 	case "rows", "generic", "any", "colwriters", "copyrows":
 	case "buffer":
-		if cs.Opts.MaxRows != 0 {
+		// WriteRowGroup(buffer): configureBloomFilters pre-sizes the filter of the FIRST output row group of
+		// each call from the buffer's value count (Lean `presize`); the later row groups of a split call
+		// are not pre-sized (ColumnWriter.reset truncates the filter).
+		g, ok := cs.bufferGroup(f, rgi)
+		if !ok {
 			ctx.Hist("files.strategy", "skipped-presize-unknown")
 			return
 		}
-		presized = parquet.SplitBlockFilter(col.Bits, col.Name).Size(meta.NumValues)
+		if g.first {
+			srcValues := int64(0)
+			for _, row := range cs.rows[g.lo:g.hi] {
+				srcValues += int64(max(1, len(row[ci])))
+			}
+			maxRows := cs.Opts.MaxRows
+			if maxRows <= 0 {
+				maxRows = math.MaxInt64
+			}
+			n := int64(g.hi - g.lo)
+			switch {
+			case n > maxRows && col.Rep == 2:
+			case n > maxRows:
+				presized = parquet.SplitBlockFilter(col.Bits, col.Name).Size(min(srcValues, maxRows))
+			default:
+				presized = parquet.SplitBlockFilter(col.Bits, col.Name).Size(srcValues)
+			}
+			rep := 0
+			if col.Rep == 2 {
+				rep = 1
+			}
+			preq := fmt.Sprintf("bloom.presize %d 1 %d %d %d %d", col.Bits, srcValues, n, maxRows, rep)
+			want := fmt.Sprintf("ok %d", presized)
+			b.add(preq, func(resp string) {
+				if resp != want {
+					d := where()
+					d["request"], d["go"], d["lean"] = preq, want, resp
+					ctx.Fail("L2", "presize-vs-mirror", "harness transcription of configureBloomFilters differs from the Lean mirror `presize`", d)
+				}
+			})
+			ctx.Hist("files.presize", fmt.Sprintf("first-of-call split=%v presized=%v", n > maxRows, presized > 0))
+		} else {
+			ctx.Hist("files.presize", "later-group-of-split-call")
+		}
 	default:
 		ctx.Hist("files.strategy", "skipped-presize-unknown")
 		return
@@ -1182,6 +1545,48 @@ func c07StrategyL2(ctx *core.Ctx, b *c07Batch, cs *c07Case, f *parquet.File, rgi
 		}
 		ctx.Fail("L2", key, "filter (size, bytes) in the file differs from the model of flushFilterPages for this chunk", d)
 	})
+}
+
+type c07Group struct {
+	lo, hi int  // rows of the WriteRowGroup call this output row group belongs to
+	first  bool // first output row group of that call
+}
+
+// bufferGroup: for the "buffer" path, which WriteRowGroup(buffer) call produced output row group rgi.
+// A call of n rows gives groups of MaxRowsPerRowGroup rows and a remainder; ok=false when the file's
+// row groups do not match that layout.
+func (cs *c07Case) bufferGroup(f *parquet.File, rgi int) (c07Group, bool) {
+	if cs.groups == nil {
+		cs.groups = []c07Group{}
+		parts := 1 + ((cs.Index%3)+3)%3
+		per := max((len(cs.rows)+parts-1)/parts, 1)
+		var sizes []int
+		for i := 0; i < len(cs.rows); i += per {
+			j := min(len(cs.rows), i+per)
+			n, first := j-i, true
+			for n > 0 {
+				k := n
+				if cs.Opts.MaxRows > 0 && int64(k) > cs.Opts.MaxRows {
+					k = int(cs.Opts.MaxRows)
+				}
+				cs.groups = append(cs.groups, c07Group{i, j, first})
+				sizes = append(sizes, k)
+				n, first = n-k, false
+			}
+		}
+		rgs := f.RowGroups()
+		ok := len(rgs) == len(sizes)
+		for i := 0; ok && i < len(rgs); i++ {
+			ok = rgs[i].NumRows() == int64(sizes[i])
+		}
+		if !ok {
+			cs.groups = []c07Group{}
+		}
+	}
+	if rgi >= len(cs.groups) {
+		return c07Group{}, false
+	}
+	return cs.groups[rgi], true
 }
 
 // corpus case: {"path":..,"cols":[..],"opts":{..},"rows":[[["tok",..] per column] per row]}; tokens as
